@@ -13,28 +13,35 @@ PROPERTY = "C06"
 RULE = (
     "Hypothesis draws a bin grid (1-d pixels, pixels x origin-dim in both dim orders, 2-d pixel "
     "grid, origin-dim only, a single 0-d bin), a buffer layout given by explicit per-bin sizes "
-    "(0 biased), gaps between bins, a trailing gap and the order in which the bins sit in the "
-    "buffer (identity / reversed / permuted) from which begin/end are computed and passed to "
-    "sc.bins; layout classes forced with extra mass: all events in one bin, empty first and last "
-    "bin, all bins empty over a non-empty buffer, zero events in total. Event coordinate dtype "
-    "float64/float32/int64 in a drawn unit with physical magnitudes (tof 1e-5..1e-1 s, wavelength "
-    "0.05..50 angstrom, energy 0.01..1e4 meV, Q 0.01..50 1/angstrom, occasionally 0); weights "
-    "float64/float32 with or without variances; a unique int64 event-id coordinate, optionally an "
-    "event mask; masks on the pixel dims and on the origin dim; unrelated pixel and scalar "
-    "coordinates; a bin-edge (or point, or no) dense coordinate on the origin dim in float64 or the "
-    "event dtype; geometry per pixel either as positions (source, sample, pixel position; random "
-    "directions, m/mm/cm) or as derived lengths and angles (Ltotal, L1, L2, two_theta; m/mm, "
-    "rad/deg), optionally without scattering; fixed energy for the inelastic targets as float64/"
-    "float32/int64 scalar or per pixel, with arrival times on both sides of t0. Optionally the "
-    "object is a slice of a larger one and/or wrapped in a Dataset. The enumerated facet crosses "
-    "6 fixed layouts x 4 grids x 3 event dtypes x all origin/target pairs. Oracle: for every bin, "
-    "the dense kernel chain (scippneutron.conversion.beamline + .tof functions called on a dense "
-    "1-d variable holding that bin's events, read from the input object before the call, and the "
-    "0-d geometry of that bin's pixel) must reproduce the event values bit for bit (NaN = NaN), "
-    "same for the dense origin coordinate; weights, variances, event ids, event masks per bin in "
-    "order, bin sizes, masks, unrelated coords equal to the input modulo one consistent rename of "
-    "the origin dim; every buffer of the input (including events in gaps and of the parent of a "
-    "slice) bitwise unchanged. A case is non-trivial when at least one event value was compared "
+    "(0 biased), gaps before each bin, a trailing gap and the order in which the bins sit in the "
+    "buffer (identity / reversed / permuted), from which begin/end are computed and passed to "
+    "sc.bins; layout classes with extra mass: all events in one bin, empty first and last bin, all "
+    "bins empty over a non-empty buffer, zero events in total. Event coordinate dtype float64/"
+    "float32/int64 in a drawn unit with physical magnitudes (tof 1e-5..1e-1 s, wavelength 0.05..50 "
+    "angstrom, energy 0.01..1e4 meV, Q 0.01..50 1/angstrom, occasionally 0); weights float64/float32 "
+    "with or without variances; a unique int64 event-id coordinate, optionally an event mask; masks "
+    "on the pixel dims and on the origin dim; unrelated pixel and scalar coordinates; a bin-edge (or "
+    "point, or no) dense coordinate on the origin dim in float64 or the event dtype, in the unit of "
+    "the events or another one; geometry per pixel either as positions (source, sample, pixel "
+    "position; random directions, m/mm/cm) or as derived lengths and angles (Ltotal, L1, L2, "
+    "two_theta; m/mm, rad/deg, float64/float32, per pixel or scalar), optionally without scattering; "
+    "fixed energy for the inelastic targets as float64/float32/int64 scalar or per pixel, arrival "
+    "times on both sides of t0. Optionally the object is a slice of a larger one and/or an item of a "
+    "Dataset (with a dense item beside it). Origins tof, wavelength, energy, Q; targets wavelength, "
+    "energy, dspacing, Q, Qx, Qy, Qz, Q_vec, energy_transfer (direct and indirect). layout_grid "
+    "enumerates 6 fixed layouts x 4 grids x 3 event dtypes x all 22 origin/target pairs. "
+    "kernel_events calls the 13 conversion kernels directly with binned variables (1 to 3 binned "
+    "operands sharing begin/end, dense operands per pixel or scalar in drawn units and dtypes); "
+    "gravity_events does the same for the two gravity-corrected angle functions with binned "
+    "wavelength; transposed_geometry stores the per-pixel geometry of a 2-d pixel grid with the "
+    "pixel dims in the opposite order. Oracle: for every bin, the dense kernel chain "
+    "(scippneutron.conversion.beamline + .tof functions called on a dense 1-d variable holding that "
+    "bin's events, read from the input object before the call, and the 0-d geometry of that bin's "
+    "pixel) must reproduce the event values, unit and dtype bit for bit (NaN = NaN); same for the "
+    "dense origin coordinate; weights, variances, event ids, event masks per bin in order, bin "
+    "sizes, masks, unrelated coords, dense dataset item equal to the input modulo one consistent "
+    "rename of the origin dim; every buffer of the input (including events in gaps and the parent of "
+    "a slice) bitwise unchanged. A case is non-trivial when at least one event value was compared "
     "and (the grid has an empty and a non-empty bin, or the event dtype is not float64, or the grid "
     "is 2-d); distinct = distinct descriptor hash."
 )
@@ -268,8 +275,8 @@ def grid_dims(grid, origin, pix_shape, nx):
 @st.composite
 def layouts(draw, nbins):
     kind = draw(st.sampled_from(
-        ["random", "random", "random", "random", "all_in_one", "ends_empty", "all_empty", "zero_events",
-         "full"]))
+        ["random", "random", "random", "random", "random", "random", "all_in_one", "ends_empty", "all_empty",
+         "zero_events", "full"]))
     small = st.sampled_from([0, 0, 1, 1, 2, 3, 5])
     if kind == "random":
         sizes = draw(st.lists(small, min_size=nbins, max_size=nbins))
@@ -465,8 +472,11 @@ def convert_cases(draw, inelastic=False, transposed=False):
         if ekind is not None:
             m = nx + 1 if ekind == "edges" else nx
             edt = draw(st.sampled_from(["float64", evdtype]))
-            vals = sorted(draw(origin_values(origin, unit, edt, m)))
-            case["xcoord"] = {"kind": ekind, "dtype": edt, "values": vals}
+            xunits = ORIGIN_INT_UNITS[origin] if edt == "int64" else sorted(ORIGIN_UNITS[origin])
+            xunit = draw(st.sampled_from([unit, unit, unit] + xunits)) if unit in xunits else draw(
+                st.sampled_from(xunits))
+            vals = sorted(draw(origin_values(origin, xunit, edt, m)))
+            case["xcoord"] = {"kind": ekind, "dtype": edt, "unit": xunit, "values": vals}
         else:
             case["xcoord"] = None
     else:
@@ -576,7 +586,7 @@ def build_input(case):
     xc = case["xcoord"]
     if xc is not None:
         coords[origin] = sc.array(dims=[origin], values=np.asarray(xc["values"], dtype=xc["dtype"]),
-                                  unit=case["unit"], dtype=xc["dtype"])
+                                  unit=xc.get("unit", case["unit"]), dtype=xc["dtype"])
     masks = {}
     if case["pixmask"] is not None and pix_dims:
         masks["pixmask"] = sc.array(dims=pix_dims, values=np.asarray(case["pixmask"], dtype=bool).reshape(
@@ -833,6 +843,8 @@ def check_convert(case):
                                               f"from the dense kernels: "
                                 + first_diff(np.asarray(gp.values), np.asarray(ref.values)))
         labs.append("xcoord:" + case["xcoord"]["kind"] + ":" + case["xcoord"]["dtype"])
+        if case["xcoord"].get("unit", case["unit"]) != case["unit"]:
+            labs.append("xcoord:unit-differs-from-events")
     else:
         labs.append("xcoord:none")
 
@@ -1235,25 +1247,25 @@ def check_gravity(case):
 
 FACETS = [
     Facet("convert_elastic", check_convert, strategy=lambda tier: convert_cases(False),
-          quick=(4, 400), thorough=(16, 4000), min_nontrivial=0.3,
+          quick=(4, 400), thorough=(16, 1200), min_nontrivial=0.3,
           doc="scn.convert on binned data, elastic targets and no-scatter: events vs dense chain per bin, dense "
               "origin coordinate, preserved weights/order/membership/masks/coords, input untouched"),
     Facet("convert_inelastic", check_convert, strategy=lambda tier: convert_cases(True),
-          quick=(2, 400), thorough=(16, 2000), min_nontrivial=0.3,
+          quick=(2, 400), thorough=(16, 600), min_nontrivial=0.3,
           doc="scn.convert to energy_transfer (direct and indirect) on binned data"),
     Facet("transposed_geometry", check_convert, strategy=lambda tier: convert_cases(transposed=True),
-          quick=(1, 200), thorough=(4, 1000), min_nontrivial=0.3,
+          quick=(1, 200), thorough=(4, 500), min_nontrivial=0.3,
           doc="2-d pixel grid whose per-pixel geometry coordinates are stored with the pixel dims in the "
               "opposite order (same values per pixel): dense conversion accepts this, event mode must too"),
     Facet("layout_grid", check_convert, enumerate=enumerate_grid, exhaustive_in=("quick", "thorough"),
           quick=(4, 0), thorough=(16, 0), min_nontrivial=0.3,
           doc="6 fixed layouts x 4 grids x 3 event dtypes x every origin/target pair"),
     Facet("kernel_events", check_kernel, strategy=lambda tier: kernel_cases(),
-          quick=(3, 500), thorough=(16, 4000), min_nontrivial=0.3,
+          quick=(3, 500), thorough=(16, 1200), min_nontrivial=0.3,
           doc="conversion kernels called directly with binned variables: per-bin equality with the dense call, "
               "arguments untouched"),
     Facet("gravity_events", check_gravity, strategy=lambda tier: gravity_cases(),
-          quick=(2, 300), thorough=(16, 2000), min_nontrivial=0.3,
+          quick=(2, 300), thorough=(16, 500), min_nontrivial=0.3,
           doc="gravity-corrected angles for binned wavelengths vs the dense call per pixel"),
 ]
 
